@@ -12,7 +12,7 @@ ASSUMPTIONS = ['port contract as for C02', 'the ledger of the verification port 
 
 
 def project(lines):
-    return [l for l in lines if l.startswith(('#', 'tx', 'sleep', 'abort', 'fault', 'bad-op', 'end '))]
+    return [l for l in lines if l.startswith(('#', 'tx', 'sleep', 'abort', 'fault', 'bad-op', 'end ', 'st ', 'obs '))]
 
 
 def cases(rng, tier, X):
